@@ -696,7 +696,7 @@ func grpcParseTimeout(timeout string) (time.Duration, error) {
 	if err != nil {
 		return 0, fmt.Errorf("gRPC protocol error: invalid timeout %q", timeout)
 	}
-	if num > 99999999 { // timeout must be ASCII string of at most 8 digits
+	if len(timeout)-1 > grpcMaxTimeoutChars { // timeout must be ASCII string of at most 8 digits, leading zeros included
 		return 0, fmt.Errorf("gRPC protocol error: timeout %q is too long", timeout)
 	}
 	if unit == time.Hour && num > uint64(grpcTimeoutMaxHours) {
